@@ -174,38 +174,38 @@ package ast
 //@   init excluded := true
 //@   init varsDone := false
 //@   init itvDone := false
-//@   site (*Task).DeepCopy#1 requires arg0 == v                              -- the copy is of the task being visited   [C08]
-//@   site slices.Contains#1 requires arg0 == include.Excludes && arg1 == name                                          [C08]
+//@   site (*Task).DeepCopy#0 requires arg0 == v                              -- the copy is of the task being visited   [C08]
+//@   site slices.Contains#0 requires arg0 == include.Excludes && arg1 == name                                          [C08]
 //@   site slices.Contains#1 ghost excluded := result
 //@   site taskNameWithNamespace#1 requires arg0 == dep.Task && arg1 == include.Namespace     -- deps stay in the file   [C08]
 //@   site taskNameWithNamespace#2 requires arg0 == cmd.Task && arg1 == include.Namespace     -- so do task: calls       [C08]
 //@   site taskNameWithNamespace#3 requires arg1 == include.Namespace                         -- and aliases             [C08]
 //@   site taskNameWithNamespace#4 requires arg0 == name && arg1 == include.Namespace         -- <namespace>:<task>      [C08]
 //@   site taskNameWithNamespace#5 requires arg0 == v.Task      -- <include alias>:<task>: the task's OWN name, not yet prefixed   [C15,C08]
-//@   site (*Vars).Merge#1 requires arg0 == task.IncludeVars && arg1 == include.Vars && arg0 != nil                      [C08,C10]
+//@   site (*Vars).Merge#0 requires arg0 == task.IncludeVars && arg1 == include.Vars && arg0 != nil                      [C08,C10]
 //@   site (*Vars).Merge#1 ghost varsDone := true
-//@   site (*Vars).DeepCopy#1 requires arg0 == includedTaskfileVars                                                      [C08,C10]
-//@   site (*Tasks).Get#1 requires arg0 == t1 && arg1 == taskName              -- collision test on the final name       [C08,C09]
+//@   site (*Vars).DeepCopy#0 requires arg0 == includedTaskfileVars                                                      [C08,C10]
+//@   site (*Tasks).Get#0 requires arg0 == t1 && arg1 == taskName              -- collision test on the final name       [C08,C09]
 //@   site (*Tasks).Get#1 ghost dupFree := !result.1
-//@   site (*Tasks).Set#1 requires arg0 == t1 && arg1 == taskName && arg2 == task                                        [C08]
-//@   site (*Tasks).Set#1 requires dupFree                                     -- never overwrite an existing task       [C08,C09]
-//@   site (*Tasks).Set#1 requires !excluded                                   -- excluded tasks are not merged          [C08]
+//@   site (*Tasks).Set#0 requires arg0 == t1 && arg1 == taskName && arg2 == task                                        [C08]
+//@   site (*Tasks).Set#0 requires dupFree                                     -- never overwrite an existing task       [C08,C09]
+//@   site (*Tasks).Set#0 requires !excluded                                   -- excluded tasks are not merged          [C08]
 // ... and the merge only goes on to the next task after this one was added (or is excluded): a name that is already
 // taken ends the merge with the conflict error, it is never skipped silently
 //@   init added := false
 //@   site (*Tasks).Set#1 ghost added := true
 //@   ensures result ==> added || excluded                                                                               [C08]
-//@   site (*Tasks).Set#1 requires task.Internal == (v.Internal || (include != nil && include.Internal))                 [C08,C13]
+//@   site (*Tasks).Set#0 requires task.Internal == (v.Internal || (include != nil && include.Internal))                 [C08,C13]
 //@   loop 1 invariant unmodified(v)
 //@   loop 2 invariant unmodified(v)
 //@   loop 3 invariant unmodified(v)
 //@   loop 4 invariant unmodified(v)
 //@   loop 5 invariant unmodified(v)
 //@   ensures unmodified(v)     -- merging writes into the copy only; the included Taskfile's own task (which other parents will copy too) stays as it was   [C08,C09,C11]
-//@   site (*Tasks).Set#1 requires include.Flatten || (task.Task == taskName && task.Namespace == include.Namespace)     [C08]
-//@   site (*Tasks).Set#1 requires include.AdvancedImport ==> varsDone      -- the include's vars reach every copy       [C08,C10]
+//@   site (*Tasks).Set#0 requires include.Flatten || (task.Task == taskName && task.Namespace == include.Namespace)     [C08]
+//@   site (*Tasks).Set#0 requires include.AdvancedImport ==> varsDone      -- the include's vars reach every copy       [C08,C10]
 //@   site (*Vars).DeepCopy#1 ghost itvDone := true
-//@   site (*Tasks).Set#1 requires include.AdvancedImport ==> itvDone       -- and so do the included file's own vars, flattened or not   [C10]
+//@   site (*Tasks).Set#0 requires include.AdvancedImport ==> itvDone       -- and so do the included file's own vars, flattened or not   [C10]
 
 // The alias block after the loop only touches the default task if it was merged (it may have been excluded).
 //@ func (*Tasks).Merge
@@ -231,11 +231,11 @@ package ast
 //@ func (*Vars).Merge
 //@   modifies github.com/go-task/task/v3/taskfile/ast.Var.Dir, om_has, om_val, om_len, om_key
 //@   nilable vars other include
-//@   site (*OrderedMap).Set#1 requires arg0 == vars.om                                                       [C08,C10]
-//@   site (*OrderedMap).Set#1 requires include != nil && include.AdvancedImport ==> arg2.Dir == include.Dir  [C08,C09,C10]
+//@   site (*OrderedMap).Set#0 requires arg0 == vars.om                                                       [C08,C10]
+//@   site (*OrderedMap).Set#0 requires include != nil && include.AdvancedImport ==> arg2.Dir == include.Dir  [C08,C09,C10]
 // ... and is otherwise taken over as it is: value, shell command, reference and the "live" (final, never
 // templated) value - the marker CLI_ARGS travels with
-//@   site (*OrderedMap).Set#1 requires arg1 == pair.Key && arg2.Value == pair.Value.Value && arg2.Live == pair.Value.Live && arg2.Sh == pair.Value.Sh && arg2.Ref == pair.Value.Ref   [C10,C19]
+//@   site (*OrderedMap).Set#0 requires arg1 == pair.Key && arg2.Value == pair.Value.Value && arg2.Live == pair.Value.Live && arg2.Sh == pair.Value.Sh && arg2.Ref == pair.Value.Ref   [C10,C19]
 
 // ---- C15 / C16: in a task name only '*' is special; every other character is matched literally ------------
 // The pattern handed to the regexp compiler is built from the name's '*'-separated segments, each of them
@@ -243,13 +243,13 @@ package ast
 // cannot panic, and '.', '(' ... in a name mean themselves.
 //@ func (*Task).WildcardMatch
 //@   sweep                                                                                                             [C16]
-//@   site strings.Split#1 requires arg0 == t.Task && arg1 == "*"                                                       [C15,C16]
-//@   site regexp.QuoteMeta#1 requires arg0 == names[$i]              -- every literal segment is quoted                [C15,C16]
-//@   site strings.Join#1 requires arg0 == names && arg1 == "(.*)"                                                      [C15,C16]
+//@   site strings.Split#0 requires arg0 == t.Task && arg1 == "*"                                                       [C15,C16]
+//@   site regexp.QuoteMeta#0 requires arg0 == names[$i]              -- every literal segment is quoted                [C15,C16]
+//@   site strings.Join#0 requires arg0 == names && arg1 == "(.*)"                                                      [C15,C16]
 // ... and "matches" means that this anchored expression matched the WHOLE requested name: there is no other way
 // to a positive answer (a literal prefix and suffix that overlap in the name are not a match)
 //@   init reMatched := false
-//@   site (*Regexp).FindStringSubmatch#1 requires arg1 == name                                                         [C15]
+//@   site (*Regexp).FindStringSubmatch#0 requires arg1 == name                                                         [C15]
 //@   site (*Regexp).FindStringSubmatch#1 ghost reMatched := len(result) > 0
 //@   ensures result.0 ==> reMatched                                                                                    [C15]
 // ... and there is no other way to a NEGATIVE answer either: every answer is given after the anchored expression
@@ -259,7 +259,7 @@ package ast
 //@   init starCount := 0
 //@   site (*Regexp).FindStringSubmatch#1 ghost reTried := true
 //@   site (*Regexp).FindStringSubmatch#1 ghost nSub := len(result)
-//@   site strings.Count#1 requires arg0 == t.Task && arg1 == "*"                                                       [C15]
+//@   site strings.Count#0 requires arg0 == t.Task && arg1 == "*"                                                       [C15]
 //@   site strings.Count#1 ghost starCount := result
 //@   ensures reTried                                                                                                   [C15]
 //@   ensures reMatched && nSub - 1 == starCount ==> result.0                                                           [C15]
@@ -277,12 +277,12 @@ package ast
 // load; StableTopologicalSort(g, less) is a function of the graph and of less (assumed contract).
 //@ func (*TaskfileGraph).Merge
 //@   nosite graph.TopologicalSort                                                                              [C09]
-//@   site graph.StableTopologicalSort#1 requires arg0 == tfg.Graph                                             [C09]
+//@   site graph.StableTopologicalSort#0 requires arg0 == tfg.Graph                                             [C09]
 // The merges of one Taskfile into its several parents run one after the other: each goroutine handed to the
 // group is awaited before the next one is started (Vars.Merge stamps the include dir on the SHARED variables of
 // the included file before copying them, so two merges at once would see each other's dir).
 //@   init pendingMerges := 0
-//@   site (*Group).Go#1 requires pendingMerges == 0                                                            [C09,C18]
+//@   site (*Group).Go#0 requires pendingMerges == 0                                                            [C09,C18]
 //@   site (*Group).Go#1 ghost pendingMerges := pendingMerges + 1
 //@   site (*Group).Wait#1 ghost pendingMerges := 0
 //@   loop 1 invariant pendingMerges == 0
@@ -295,15 +295,15 @@ package ast
 //@ ghost var pendingMerges int scratch
 //@ func (*TaskfileGraph).Merge$2
 //@   site slices.SortStableFunc#1 ghost sortedIncl := arg0
-//@   site (*Taskfile).Merge#1 requires includes == sortedIncl && arg2 == includes[$i]                          [C09]
+//@   site (*Taskfile).Merge#0 requires includes == sortedIncl && arg2 == includes[$i]                          [C09]
 
 // ---- C06 / C08: merging an included Taskfile adds its tasks and variables to the parent; it never rewrites an
 // attribute (run:, method:, ...) of a task the parent already has
 //@ func (*Taskfile).Merge
-//@   site (*Tasks).Merge#1 requires arg0 == t1.Tasks && arg1 == t2.Tasks && arg2 == include                           [C08,C10]
+//@   site (*Tasks).Merge#0 requires arg0 == t1.Tasks && arg1 == t2.Tasks && arg2 == include                           [C08,C10]
 // "the variables of the included Taskfile" that every merged task carries are the INCLUDED file's own variables
 // (not the parent's: those are the global level, which the include statement's vars must be able to override)
-//@   site (*Tasks).Merge#1 requires arg3 == t2.Vars                                                                     [C10]
+//@   site (*Tasks).Merge#0 requires arg3 == t2.Vars                                                                     [C10]
 //@   nosite (*Tasks).All            -- the tasks are touched by Tasks.Merge only (which copies), never walked over here  [C06,C08]
 //@   nosite (*Tasks).Values                                                                                             [C06,C08]
 //@   nosite (*Tasks).Get                                                                                                [C06,C08]
